@@ -208,6 +208,28 @@ def run(ck):
                              "script": [l.replace(vlib.VERIF, "$VERIF") for l in L[:3]] + ["schedhl %d %s %s" % (k, ja, jb), "flush", "trainstate t1"],
                              "reason": "the final tracked state is not the outcome of any serial order of the two commands (an effect was lost), or a command failed"})
     ck.oblige("concurrency probe: two commands on one train under forced schedules are serialisable (%d schedules; in %d of them B completed while A was parked)" % (len(hp), inside), hbad == 0, "%d bad" % hbad)
+    # getters against the receiver: a getter is parked before its k-th mutex acquisition while the receiver processes a report
+    # that takes the train off the track (or puts it on); the getter must return and free its result (a two-pass getter that
+    # releases the lock between counting and copying frees an uninitialised pointer here; ASan build, one process per schedule)
+    from concurrent.futures import ThreadPoolExecutor
+    on = hexs(flowgen.frame(flowgen.upmsg([], 4, 0xA3, [0, 0x23, 0x01]))); off = hexs(flowgen.frame(flowgen.upmsg([], 5, 0xA1, [0])))
+    gp = [(k, job, first, second) for k in range(1, 7) for job in ("ontrack", "getstate", "trainpos t1", "trainst t1") for first, second in ((on, off), (off, on))]
+    def gone(x):
+        k, job, first, second = x
+        sc = ["start 0 %s 0" % cfg10, "logw 0", "nodenew 0 0 0 0 da000d680001ee", "rx " + first, "schedhlrx %d %s %s" % (k, job, second), "mark done"]
+        rc_, out_, err_ = vlib.run_driver(exe3, "\n".join(sc) + "\n", timeout=60)
+        return x, sc, rc_, out_, err_
+    with ThreadPoolExecutor(8) as ex_: gres = list(ex_.map(gone, gp))
+    gbad = 0; torn = {}
+    for (k, job, first, second), sc, rc_, out_, err_ in gres:
+        if rc_ != 0 or "mark done" not in out_:
+            gbad += 1; fnm = {"ontrack": "bidib_get_trains_on_track", "getstate": "bidib_get_state", "trainpos": "bidib_get_train_position", "trainst": "bidib_get_train_state"}[job.split()[0]]
+            if fnm not in torn:
+                torn[fnm] = {"script": [l.replace(vlib.VERIF, "$VERIF") for l in sc], "driver_rc": rc_, "observed": out_[-300:], "stderr": err_[-1500:]}
+    ck.oblige("concurrency probe: getters parked inside while the receiver moves a train on / off the track return and free their result (%d forced schedules)" % len(gp), gbad == 0, "%d bad" % gbad)
+    for fnm, rp_ in torn.items():
+        if not any(d["function"] == fnm for d in sh10_bad):
+            ck.violation("atomic.getter-torn.%s" % fnm, dict(rp_, property="C10", function=fnm, reason="the getter crashed or did not return when the receiver changed the state between two of its lock acquisitions"))
     # a false single-hold fact: name function and lock; concrete when the probe lost an update in a command of that function
     CMD = {"tper": "bidib_set_train_peripheral", "speed": "bidib_set_train_speed", "cspeed": "bidib_set_calibrated_train_speed", "estop": "bidib_emergency_stop_train"}
     seen_sh = set()
@@ -218,6 +240,15 @@ def run(ck):
         content = {"property": "C10", "violated_fact": "C10_rmw_serialised (LockAtomicC10.c10_single_hold)", "function": d["function"], "lock": d["lock"], "exclusive": d["exclusive"],
                    "globals": d["globals"], "diagnosis": d.get("why"), "reason": d.get("what")}
         hit = next((x for x in lost if d["function"] in (CMD.get(x["A"].split()[0]), CMD.get(x["B"].split()[0]))), None)
+        if d["table"] == "c10_getter":
+            content["violated_fact"] = "C10_getters_single_hold (LockAtomicC10.c10_getter_single_hold)"
+            if d["function"] in torn:
+                content.update(torn[d["function"]]); content["scenario"] = "the getter is parked before its k-th mutex acquisition while the receiver processes an occupancy report; then it continues"
+                ck.violation("atomic.getter-not-in-one-hold.%s.%s" % k, content)
+            else:
+                content["note"] = "the forced-schedule getter probe found no crash for this getter"
+                ck.violation("atomic.getter-not-in-one-hold.%s.%s" % k, content, no_input=True)
+            continue
         if hit is not None:
             content.update({"script": hit["script"], "A": hit["A"], "B": hit["B"], "observed": hit["observed"], "expected_final_state": "both effects present (serial order)",
                             "scenario": "command A parked before its %d-th mutex acquisition while command B runs; then A continues: an update is lost" % hit["k"]})
